@@ -1413,6 +1413,9 @@ func c03exec(c *h.Ctx, cs *h.Case) {
 		}
 		cs.Impl = append(cs.Impl, obs)
 	}
+	if strings.HasPrefix(cs.Class, "loop-sweep") {
+		c03causal(cs)
+	}
 	// deliveries nobody asked for (late duplicates) on the send links
 	var tags []string
 	for t := range st.tags {
@@ -1594,9 +1597,10 @@ func c03gen(c *h.Ctx, yield func(*h.Case)) {
 
 	// ---- the classes of the round-4 deepening pass (c03r4.go); their corpus cases come first
 	c03genR4(g, emit)
+	c03genR5(g, emit)
 
 	// ---- raw framing: random frame lists, random chunkings, cut or over-limit tails
-	for i := 0; i < c.Pick(1500, 30000); i++ {
+	for i := 0; i < c.Pick(1100, 30000); i++ {
 		max := []int{0, 1, 8, 64, 300}[r.Intn(5)]
 		var ops []string
 		ops = append(ops, fmt.Sprintf("c03 cfg %d %s -", max, reg))
@@ -1636,7 +1640,7 @@ func c03gen(c *h.Ctx, yield func(*h.Case)) {
 	}
 
 	// ---- receive loop on streams of marshalled values, refused frames and damaged tails
-	for i := 0; i < c.Pick(3000, 60000); i++ {
+	for i := 0; i < c.Pick(2300, 60000); i++ {
 		class := []string{"loop-valid", "loop-valid", "loop-mixed", "loop-mixed", "loop-garbage"}[r.Intn(5)]
 		var frames [][]byte
 		var tail []byte
@@ -1810,7 +1814,7 @@ func c03gen(c *h.Ctx, yield func(*h.Case)) {
 
 	// ---- values router to router: TCP through the re-chunking proxy, and the in-memory transport
 	unreg := append(append([]byte{}, bytes.Repeat([]byte{0xee}, 16)...), 1)
-	for i := 0; i < c.Pick(700, 6000); i++ {
+	for i := 0; i < c.Pick(600, 6000); i++ {
 		tr := "tcp"
 		class := "send-tcp"
 		if r.Intn(3) == 0 {
